@@ -103,7 +103,7 @@ class MetaMolecule(nx.Graph):
         nx.set_node_attributes(self, True, "backmap")
         self.__search_tree = None
         self.root = None
-        self.dfs = False
+        self.dfs = True
         self.max_resid = 0
 
         # add resids to polyply meta-molecule nodes if they are not
@@ -211,9 +211,9 @@ class MetaMolecule(nx.Graph):
             if self.root is None:
                 self.root =_find_starting_node(self)
             if self.dfs:
-                self.__search_tree = nx.bfs_tree(self, source=self.root)
-            else:
                 self.__search_tree = nx.dfs_tree(self, source=self.root)
+            else:
+                self.__search_tree = nx.bfs_tree(self, source=self.root)
 
         return self.__search_tree
 
